@@ -7,7 +7,7 @@ derived from the SHA-256 of the chunk's own data.
 Not decided: that a 32-bit checksum detects every bit flip (arithmetic), nor panic-freedom of the
 parser that runs before the test (that is C15's subject).
 """
-from .. import cfg, util, callgraph
+from .. import cfg, util, callgraph, rules
 from ..util import callee, decl, norm_fn
 
 PARSE = "automerge::storage::chunk::Chunk::parse"
@@ -161,6 +161,94 @@ def check_hash_provenance(ctx, f):
     ctx.floor("constructions of storage::chunk::Header", n, 3)
 
 
+HDR_PARSE = "automerge::storage::chunk::Header::parse"
+HDR_NEW = "automerge::storage::chunk::Header::new"
+HDR_TYS = ("automerge::storage::chunk::Header", "automerge::storage::chunk::CheckSum")
+
+
+def check_wire_checksum(ctx, f):
+    """R1-wire: inside Chunk::parse every Header / CheckSum value that is handed on derives from the
+    header parsed off the wire (possibly through with_data, which keeps the wire checksum) and never
+    from Header::new / ChangeHash::checksum (which would make checksum_valid() compare a value with itself)."""
+    pp = [p for p in f.fns if norm_fn(p) == PARSE]
+    if len(pp) != 1:
+        raise __import__("amverif.facts", fromlist=["AnchorMissing"]).AnchorMissing(PARSE)
+    bodies = [cfg.body(f.fns[pp[0]])] + [cfg.body(r) for r in f.closures_of(pp[0])]
+    n = 0
+    for b in bodies:
+        ctx.analysed_fns.add(b.path)
+        for bi, t in b.calls():
+            c = callee(t)
+            if c == HDR_NEW:
+                ctx.ob("R1-wire", "Chunk::parse|calls Header::new", False, t["sp"], "the parser must keep the checksum read from the wire; Header::new recomputes it from the data")
+            for a, ty in zip(t["args"], t["argtys"]):
+                if util.base_ty(ty) in HDR_TYS and c != HDR_PARSE:
+                    n += 1
+                    pv = b.provenance(a, through_calls=True)
+                    cs = {norm_fn(x) for x in pv.callees()}
+                    ok = HDR_PARSE in cs and HDR_NEW not in cs and "automerge::types::ChangeHash::checksum" not in cs
+                    ctx.ob("R1-wire", "Chunk::parse|%s(%s)|%d" % ((c or "?").split("::")[-1], util.base_ty(ty).split("::")[-1], n), ok, t["sp"],
+                           "derives from Header::parse" if ok else "header/checksum handed to %s does not come from the wire header (sources: %s)" % (c, sorted(x.split("::")[-1] for x in cs)))
+    ctx.floor("Header/CheckSum hand-offs in Chunk::parse", n, 5)
+    # with_data keeps self.checksum ; parse takes it from the 4 wire bytes
+    for p, r in f.fns.items():
+        if norm_fn(p) in ("automerge::storage::chunk::Header::with_data", HDR_PARSE):
+            b = cfg.body(r)
+            for blk in b.blocks:
+                for s in blk["st"]:
+                    rv = s["rv"]
+                    if rv["k"] == "Agg" and rv.get("adt") == "automerge::storage::chunk::Header":
+                        op = rv["o"][rv["fields"].index("checksum")]
+                        pv = b.provenance(op, through_calls=True)
+                        cs = {norm_fn(x) for x in pv.callees()}
+                        if norm_fn(p).endswith("with_data"):
+                            o = b.operand_origin(op)
+                            ok = o is not None and o[0] == 1 and ".checksum" in o[1]
+                        else:
+                            in_closure = any(callee(t) == "automerge::storage::parse::take4" for cr in f.closures_of(p) for _, t in f.calls(cr))
+                            ok = ("automerge::storage::parse::take4" in cs or ("automerge::storage::parse::range_of" in cs and in_closure)) \
+                                and "automerge::storage::chunk::hash" not in cs and "automerge::types::ChangeHash::checksum" not in cs
+                        ctx.ob("R1-wire", "%s|Header{checksum}" % norm_fn(p), ok, s["sp"], "checksum field keeps the wire value (sources %s)" % sorted(x.split("::")[-1] for x in cs)[:6])
+
+
+def check_partial_error(ctx, f):
+    """R1-partial: in the loader, when a later chunk fails (LoadedChanges::Partial) the only way to carry on
+    to an Ok result is the edge `on_partial_load != Error` (i.e. the caller asked to ignore errors)."""
+    LW = "automerge::automerge::Automerge::load_with_options_and_mark_validation"
+    b = cfg.body(f.fns[LW]) if LW in f.fns else None
+    if b is None:
+        raise __import__("amverif.facts", fromlist=["AnchorMissing"]).AnchorMissing(LW)
+    ctx.analysed_fns.add(LW)
+    cands = []
+    for sb, sw in b.switches():
+        src = b.bool_operand_source(sw["op"])
+        if src and src["kind"] == "discr" and util.base_ty(src.get("ty") or "") == "automerge::storage::load::LoadedChanges":
+            cands.append((sb, sw, src))
+    # the user's `match` is the first such switch; later ones are drop elaboration of the same value
+    first = [c for c in cands if not any(o[0] != c[0] and b.can_reach(o[0], c[0]) for o in cands)]
+    arms = []
+    for sb, sw, src in first:
+        hit = [tb for v, tb in sw["targets"] if (src["vars"] or {}).get(v) == "Partial"]
+        arms += hit if hit else [sw["otherwise"]]
+    ctx.floor("LoadedChanges::Partial arms in the loader", len(arms), 1)
+
+    def pred(src):
+        if src["kind"] == "call" and norm_fn(src.get("decl")) == "core::cmp::PartialEq::eq":
+            for a in src["t"]["args"]:
+                o = b.operand_origin(a)
+                if o and ".on_partial_load" in o[1]:
+                    return False      # we want the edge where (on_partial_load == Error) is false
+        return None
+    ne_edges = rules.guard_edges(b, pred)
+    ctx.floor("tests of options.on_partial_load in the loader", len(ne_edges), 1)
+    for n, arm in enumerate(arms):
+        reach = b.reachable(arm, removed_edges=tuple(ne_edges))
+        oks = [bi for bi in reach for s in b.blocks[bi]["st"] if s["d"]["l"] == 0 and not s["d"]["p"] and util.is_ok_agg(s["rv"])]
+        ctx.ob("R1-partial", "load_with_options_and_mark_validation|Partial arm|%d" % n, not oks, util.where(b, arm),
+               "an Ok result after a failed chunk is reachable only through on_partial_load != Error" if not oks else
+               "a failed later chunk (e.g. BadChecksum) can be swallowed without on_partial_load == Ignore: path %s" % b.witness_path(arm, oks[0], avoid_edges=ne_edges))
+
+
 def run(ctx):
     ctx.level = "proof"
     ctx.decides = ("every call site of Chunk::parse on a load path tests checksum_valid() on the parsed chunk before the chunk is matched on, "
@@ -171,6 +259,8 @@ def run(ctx):
     ctx.rule("R1-err", "the false edge of that switch reaches only `_0 = Err(..)`")
     ctx.rule("R1-arms", "Chunk::checksum_valid: every enum arm's return value comes from the variant's checksum_valid or is `false`")
     ctx.rule("R12", "Header.hash provenance is chunk::hash only")
+    ctx.rule("R1-wire", "in Chunk::parse every Header/CheckSum handed on derives from Header::parse (wire) and not from Header::new / hash.checksum(); with_data keeps self.checksum")
+    ctx.rule("R1-partial", "after LoadedChanges::Partial an Ok result is reachable only via the edge on_partial_load != Error")
     f = ctx.facts()
     table = ctx.table("r1_parse_sites.tsv")
     # load entry points: exported methods of Automerge / AutoCommit that take raw bytes
@@ -256,3 +346,5 @@ def run(ctx):
         ok = any(".hash" in x for x in fields) and any(".checksum" in x for x in fields) and "automerge::types::ChangeHash::checksum" in calls
     ctx.ob("R1-arms", "Header::checksum_valid|compare", ok, hb.rec["sp"], "must compare self.hash.checksum() with self.checksum")
     check_hash_provenance(ctx, f)
+    check_wire_checksum(ctx, f)
+    check_partial_error(ctx, f)
